@@ -85,7 +85,7 @@ def _tmos_ok(child, shape, T):
 def Q1_commands(o1, o2, o3, c1, c2, c3, shape, tmo=None):
     shape = pick(shape, 0, 3)
     # the timeout convention the caller uses (-1 / a number / None) varies with the first cut position
-    T = TMOS[(pick(c1, 0, 4) if tmo is None else tmo) % 3]
+    T = TMOS[(pick(c1, 0, 7) if tmo is None else tmo) % 3]
     for o in (o1, o2, o3):
         if not _clean(o):
             return SKIP
@@ -172,7 +172,7 @@ def _drive(coro, child, loop):
             note='the awaited form run_command(..., async_=True) over a hand-driven event loop returns the same values '
                  '(same scripted REPL, output handed to the asyncio protocol piece by piece)')
 def Q2_commands_async(o1, o2, o3, c1, c2, c3, shape, tmo=None):
-    T = TMOS[(pick(c1, 0, 3) if tmo is None else tmo) % 3]
+    T = TMOS[(pick(c1, 0, 7) if tmo is None else tmo) % 3]
     import pexpect._async_w_await as AW
     from harness.C14 import FakeAsyncio, Loop
     shape = pick(shape, 0, 3)
